@@ -69,6 +69,31 @@ def vecLoop (n : Nat) (elem : Nat → Outcome) : Nat → Nat → Log → Result
 
 def vecDecode (n : Nat) (elem : Nat → Outcome) : Result := vecLoop n elem n 0 {}
 
+/-- The derived in-place `decode_into` of a `#[repr(transparent)]` struct with `n` fields
+    (`derive/src/decode.rs`, `quote_decode_into`): the fields are decoded one after the other into the
+    same memory; each decoded field is owned by a drop guard (a local) until all are decoded, then
+    the guards are forgotten. Leaving by `?` or by unwinding drops the guards — locals, in reverse
+    order of declaration. -/
+def transparentLoop (n : Nat) (elem : Nat → Outcome) : Nat → Nat → Log → Result
+  | 0, _, log => { outcome := .ok, log := { log with handed := log.handed ++ List.range n } }   -- forget(guards)
+  | fuel + 1, count, log =>
+    match elem count with
+    | .ok => transparentLoop n elem fuel (count + 1) { log with constructed := log.constructed ++ [count] }
+    | .err => { outcome := .err, log := { log with dropped := log.dropped ++ (List.range count).reverse } }
+    | .panic => { outcome := .panic, log := { log with dropped := log.dropped ++ (List.range count).reverse } }
+
+def transparentDecodeInto (n : Nat) (elem : Nat → Outcome) : Result := transparentLoop n elem n 0 {}
+
+/-- The same loop WITHOUT the guards — the code as it was before the repair of finding F6: a field
+    already written into the destination is simply left there when a later field fails. -/
+def transparentUnguarded (n : Nat) (elem : Nat → Outcome) : Nat → Nat → Log → Result
+  | 0, _, log => { outcome := .ok, log := { log with handed := log.handed ++ List.range n } }
+  | fuel + 1, count, log =>
+    match elem count with
+    | .ok => transparentUnguarded n elem fuel (count + 1) { log with constructed := log.constructed ++ [count] }
+    | .err => { outcome := .err, log := log }
+    | .panic => { outcome := .panic, log := log }
+
 /-- Summary printed by the driver and by the harness. -/
 def summary (r : Result) : String :=
   (match r.outcome with | .ok => "ok" | .err => "err" | .panic => "panic") ++
